@@ -307,7 +307,7 @@ def serialize_to_xml(elements: Iterable[Any],
         elif isinstance(item, (AttributeNode, NamespaceNode)):
             raise xpath_error('SENR0001', token=token)
         elif isinstance(item, TextNode):
-            if item.parent is not None and item.parent.name in cdata_section:
+            if isinstance(item.parent, ElementNode) and item.parent.name in cdata_section:
                 chunks.append(f'<![CDATA[{item.value}]]>')
             else:
                 chunks.append(item.value)
